@@ -205,7 +205,7 @@ def unpackBlock (env : Env) (tag : Nat) (raw : Bytes) (ext : List Encryptor) : E
     pure (.initCust, blk.drop (blk.length - Gen.AES_BLOCK_SIZE))
   else if tag = Gen.TAG_INIT_ECC then do
     match raw with
-    | [] => throw Err.indexError
+    | [] => throw Err.formatBec2      -- `if not raw: raise Bec2FileFormatError`
     | s :: rest =>
       let e ← selectEncryptor .ecc ext none (some s.toNat)
       let sk ← encDecrypt env e rest
@@ -239,7 +239,7 @@ def packBlocks (env : Env) (sk : Bytes) (ext : List Encryptor) : List AuthBlock 
 /-- `unpack_auth_blocks`: returns blocks, common key, rest of stream and bytes consumed -/
 def unpackBlocks (env : Env) (ext : List Encryptor) :
     Nat → Bytes → List AuthBlock → Option Bytes → Nat → Except Err (List AuthBlock × Option Bytes × Bytes × Nat)
-  | 0, _, _, _, _ => .error .valueError
+  | 0, _, _, _, _ => .error .outOfFuel      -- unreachable: fuel = header length + 1 (C14: `readBinary_total`)
   | fuel+1, bs, acc, common, used => do
     let (tag, r1) ← readInt 1 bs
     let (len, r2) ← readInt 1 r1
@@ -248,6 +248,8 @@ def unpackBlocks (env : Env) (ext : List Encryptor) :
     else
       match (if Gen.AUTH_BLOCK_TAGS.contains tag then unpackBlock env tag val ext else .error .keyError) with
       | .error .keyError => unpackBlocks env ext fuel r3 (acc ++ [.unknown tag val]) common (used + 2 + len)
+      -- `except (KeyError, NotImplementedError)`: an encryptor that cannot decrypt counts as no encryptor
+      | .error .notImplemented => unpackBlocks env ext fuel r3 (acc ++ [.unknown tag val]) common (used + 2 + len)
       | .error e => .error e
       | .ok (blk, sk) =>
         match common with
